@@ -11,7 +11,7 @@
    on the stack or in the memo at the start ([bad0]), about which nothing is known. *)
 From Coq Require Import List String Ascii Bool Arith Lia.
 From Spec Require Import Base.Json Base.JsonFacts Base.Url Base.UrlFacts Codec.Types Codec.Codec
-  Expand.Expand Expand.ExpandFacts Expand.ExpandSim.
+  Expand.Expand Expand.ExpandFacts Expand.ExpandSim Expand.ExpandSimCheck.
 Import ListNotations.
 Local Open Scope string_scope.
 
@@ -124,3 +124,353 @@ Proof.
 Qed.
 End OutOnly.
 
+(* ---------- the graph, cycles, and the invariants of the walk ---------- *)
+Section Cyc.
+Variable E : env.
+Variable docs : list (string * json).
+Variable cwd : string.
+Variable OP : opts.
+Variable ctx_base : string.
+Variable live : option (string * json).
+Variable rid : string.
+Hypothesis live_served : forall lu ld, live = Some (lu, ld) -> doc_at docs cwd lu = Some ld.
+Variable G : string -> json -> Prop.
+Hypothesis G_child : forall b m k v x, G b (JObj m) -> has_ref m = false -> In (k, v) m -> child_of x v -> G b x.
+Hypothesis G_target : forall b m b' t, G b (JObj m) -> has_ref m = true -> sem_target E docs cwd (get_str "$ref" m) b = Some (b', t) -> G b' t.
+Hypothesis G_plain : forall b m, G b (JObj m) -> get_str "id" m = "" /\ assoc "$ref" m <> Some (JStr "").
+Hypothesis G_same : forall b m nref, G b (JObj m) -> has_ref m = true -> nuri (get_str "$ref" m) b = POk nref ->
+  keeps_resolver (get_str "$ref" m) b nref -> nbase cwd (strip_frag nref) = nbase cwd (strip_frag b).
+Hypothesis G_tobj : forall b m b' t, G b (JObj m) -> has_ref m = true -> sem_target E docs cwd (get_str "$ref" m) b = Some (b', t) -> exists mm, t = JObj mm.
+Hypothesis strict : o_cont OP = false.
+Hypothesis noskip : o_skip OP = false.
+(* references the caller had put on the parent stack or in the memo: nothing is known about them *)
+Variable bad0 : list string.
+
+Definition holds (b : string) (j : json) (nref : string) : Prop :=
+  G b j /\ exists m, j = JObj m /\ has_ref m = true /\ nuri (get_str "$ref" m) b = POk nref.
+Definition tgt_of (b : string) (j : json) (bt : string * json) : Prop :=
+  exists m, j = JObj m /\ has_ref m = true /\ sem_target E docs cwd (get_str "$ref" m) b = Some bt.
+
+Inductive step : string * json -> string * json -> Prop :=
+| st_child b m k v x : has_ref m = false -> In (k, v) m -> schema_child k v x -> step (b, JObj m) (b, x)
+| st_ref b m bt : has_ref m = true -> sem_target E docs cwd (get_str "$ref" m) b = Some bt -> step (b, JObj m) bt.
+Inductive reach : string * json -> string * json -> Prop :=
+| r_refl p : reach p p
+| r_step p q r : reach p q -> step q r -> reach p r.
+
+(* some holder of nref has a target from which a holder of nref is reachable *)
+Definition on_cycle (nref : string) : Prop :=
+  exists b j bt b' j', holds b j nref /\ tgt_of b j bt /\ reach bt (b', j') /\ holds b' j' nref.
+
+Definition PInv (parents : list string) (pos : string * json) : Prop :=
+  forall p, In p parents -> In p bad0 \/ exists b j bt, holds b j p /\ tgt_of b j bt /\ reach bt pos.
+Definition MInv (s : st) : Prop := forall x, In x (memo s) -> on_cycle x \/ In x bad0.
+Definition Inv2 (s : st) : Prop := Inv docs rid s /\ MInv s.
+
+Definition rendered (nref txt : string) : Prop := exists s, rootid s = rid /\ render_kept OP ctx_base s nref = POk txt.
+
+(* what a fully expanded schema looks like: every reference left is the rendering of a reference on a cycle *)
+Inductive out_ok : json -> Prop :=
+| oo_ref m nref : has_ref m = true -> rendered nref (get_str "$ref" m) -> on_cycle nref \/ In nref bad0 -> out_ok (JObj m)
+| oo_node m : has_ref m = false -> (forall k v x mm, In (k, v) m -> schema_child k v x -> x = JObj mm -> out_ok x) -> out_ok (JObj m).
+Lemma out_ok_obj x : out_ok x -> exists mm, x = JObj mm.
+Proof. intros H. inversion H; eexists; reflexivity. Qed.
+Definition okv (t t' : json) : Prop := match t with JObj _ => out_ok t' | _ => True end.
+
+Lemma PInv_child parents b m k v x : PInv parents (b, JObj m) -> has_ref m = false -> In (k, v) m -> schema_child k v x -> PInv parents (b, x).
+Proof.
+  intros HP Hr Hin Hc p Hp. destruct (HP p Hp) as [Hb|[b0 [j0 [bt [H1 [H2 H3]]]]]]; [left; exact Hb|right].
+  exists b0, j0, bt. split; [exact H1|split; [exact H2|]]. eapply r_step; [exact H3|]. eapply st_child; eassumption.
+Qed.
+Lemma PInv_follow parents b m nref bt : G b (JObj m) -> PInv parents (b, JObj m) -> has_ref m = true -> nuri (get_str "$ref" m) b = POk nref ->
+  sem_target E docs cwd (get_str "$ref" m) b = Some bt -> PInv (parents ++ [nref])%list bt.
+Proof.
+  intros Hg HP Hr Hn Ht p Hp. apply in_app_or in Hp. destruct Hp as [Hp|[<-|[]]].
+  - destruct (HP p Hp) as [Hb|[b0 [j0 [bt0 [H1 [H2 H3]]]]]]; [left; exact Hb|right].
+    exists b0, j0, bt0. split; [exact H1|split; [exact H2|]]. eapply r_step; [exact H3|]. eapply st_ref; eassumption.
+  - right. exists b, (JObj m), bt. split; [split; [exact Hg|exists m; auto]|split; [exists m; auto|apply r_refl]].
+Qed.
+
+(* resolution does not touch the memo *)
+Lemma load_memo s u s' d : load docs cwd s u = Done (s', d) -> memo s' = memo s.
+Proof.
+  unfold load. destruct (nbase cwd (strip_frag u)) as [n| |]; cbn [pbind]; try discriminate.
+  destruct (assoc n (cache s)); [intros H; inversion H; reflexivity|].
+  destruct (assoc n docs); [|discriminate]. intros H. inversion H. reflexivity.
+Qed.
+Lemma finish_memo ref toks s' d s2 t : resolve_finish E ref "Schema" toks s' d = Done (s2, t) -> memo s2 = memo s'.
+Proof. intros H. apply finish_fin in H. destruct H as [_ ->]. reflexivity. Qed.
+Lemma resolve_memo s rroot ref base s2 t : resolve E docs cwd live s rroot ref base "Schema" = Done (s2, t) -> memo s2 = memo s.
+Proof.
+  unfold resolve. destruct (new_ref (s2l ref)) as [r| |]; cbn [pbind]; try discriminate.
+  set (toks := ptr_tokens (u_frag (r_url r))).
+  assert (Hby : pbind s (nuri ref base) (fun full => ebind (load docs cwd s full) (fun sd => resolve_finish E ref "Schema" toks (fst sd) (snd sd))) = Done (s2, t) -> memo s2 = memo s).
+  { destruct (nuri ref base) as [full| |]; cbn [pbind]; try discriminate. intros H. apply ebind_done in H. destruct H as [[s' d] [Hl Hf]].
+    cbn [fst snd] in Hf. rewrite (finish_memo _ _ _ _ _ _ Hf). exact (load_memo _ _ _ _ Hl). }
+  assert (Hvia : forall u, match load docs cwd s u with Done (s', d) => resolve_finish E ref "Schema" toks s' d
+                 | _ => pbind s (nuri ref base) (fun full => ebind (load docs cwd s full) (fun sd => resolve_finish E ref "Schema" toks (fst sd) (snd sd))) end = Done (s2, t) -> memo s2 = memo s).
+  { intros u. destruct (load docs cwd s u) as [[s' d]|sf| |] eqn:El; try exact Hby.
+    intros Hf. rewrite (finish_memo _ _ _ _ _ _ Hf). exact (load_memo _ _ _ _ El). }
+  destruct (is_root r || has_fragment_only r); [|exact Hby].
+  destruct rroot as [ru|].
+  - destruct live as [[lu ld]|]; [|apply Hvia]. destruct (String.eqb ru lu); [|apply Hvia]. apply finish_memo.
+  - destruct (String.eqb base ""); [exact Hby|apply Hvia].
+Qed.
+
+Lemma is_circular_false s nref parents s1 : is_circular s nref parents = (s1, false) -> s1 = s.
+Proof.
+  unfold is_circular. destruct (mem_str nref (memo s)); [discriminate|]. destruct (mem_str nref parents); [discriminate|].
+  intros H. inversion H. reflexivity.
+Qed.
+
+Section WalkCyc.
+Variable follow : st -> list string -> option string -> string -> json -> eres (st * json).
+Hypothesis Hfollow : forall s ps rr b t s' t', G b t -> Inv2 s -> Coh cwd rr b -> PInv ps (b, t) -> follow s ps rr b t = Done (s', t') ->
+  Inv2 s' /\ okv t t'.
+
+Lemma esr_cyc s parents rroot base m s' j' :
+  G base (JObj m) -> has_ref m = true -> Inv2 s -> Coh cwd rroot base -> PInv parents (base, JObj m) ->
+  expand_schema_ref E docs cwd OP ctx_base live follow s parents rroot base m = Done (s', j') ->
+  Inv2 s' /\ out_ok j'.
+Proof.
+  intros Hg Hr [Hs Hm] Hcoh HP. unfold expand_schema_ref.
+  destruct (nuri (get_str "$ref" m) base) as [nref| |] eqn:En; cbn [pbind]; try discriminate.
+  pose proof (is_circular_Inv docs rid s nref parents Hs) as Hs1.
+  destruct (is_circular s nref parents) as [s1 circ] eqn:Ec. cbn [fst] in Hs1.
+  destruct circ.
+  - destruct (render_kept OP ctx_base s1 nref) as [txt| |] eqn:Ek; cbn [pbind]; try discriminate.
+    intros H. inversion H; subst.
+    assert (Hcyc : (on_cycle nref \/ In nref bad0) /\ MInv s').
+    { destruct (is_circular_true _ _ _ _ Ec) as [[Hin ->]|[Hin ->]].
+      - split; [apply Hm; apply mem_str_In; exact Hin|exact Hm].
+      - assert (Hc : on_cycle nref \/ In nref bad0).
+        { destruct (HP nref (mem_str_In _ _ Hin)) as [Hb|[b0 [j0 [bt [H1 [H2 H3]]]]]]; [right; exact Hb|left].
+          exists b0, j0, bt, base, (JObj m). split; [exact H1|split; [exact H2|split; [exact H3|split; [exact Hg|exists m; auto]]]]. }
+        split; [exact Hc|]. intros x Hx. cbn [memo set_memo] in Hx. destruct Hx as [<-|Hx]; [exact Hc|apply Hm; exact Hx]. }
+    destruct Hcyc as [Hc Hm']. split; [split; assumption|].
+    apply (oo_ref _ nref); [apply has_ref_set| |exact Hc]. rewrite get_ref_set. exists s'. split; [exact (proj2 Hs1)|exact Ek].
+  - pose proof (is_circular_false _ _ _ _ Ec) as ->.
+    destruct (resolve E docs cwd live s rroot (get_str "$ref" m) base "Schema") as [[s2 t]|sf| |] eqn:Eres; try discriminate.
+    + assert (Hsame := G_same _ _ _ Hg Hr En).
+      destruct (resolve_sem E docs cwd live rid live_served _ _ _ _ _ _ _ Hs Hcoh En (fun Hl => Hsame (or_introl Hl)) Eres) as [Ht Hs2].
+      intros H. apply ebind_done in H. destruct H as [rc [Htr Hf]].
+      pose proof (transitive_coh cwd _ _ _ _ _ _ Hcoh En Hsame Htr) as Hcoh'.
+      pose proof (G_target _ _ _ _ Hg Hr Ht) as Hg'.
+      assert (Hm2 : MInv s2) by (intros x Hx; rewrite (resolve_memo _ _ _ _ _ _ Eres) in Hx; apply Hm; exact Hx).
+      destruct (Hfollow _ _ _ _ _ _ _ Hg' (conj Hs2 Hm2) Hcoh' (PInv_follow _ _ _ _ _ Hg HP Hr En Ht) Hf) as [Hs' Hok].
+      split; [exact Hs'|]. destruct (G_tobj _ _ _ _ Hg Hr Ht) as [mm ->]. exact Hok.
+    + rewrite strict. discriminate.
+Qed.
+
+Theorem walk_cyc : forall j s parents rroot base s' j',
+  G base j -> Inv2 s -> Coh cwd rroot base -> PInv parents (base, j) ->
+  walk E docs cwd OP ctx_base live follow j s parents rroot base = Done (s', j') ->
+  Inv2 s' /\ okv j j'.
+Proof.
+  intros j. remember (jsize j) as n eqn:En. revert j En.
+  induction n as [n IH] using lt_wf_ind. intros j En s parents rroot base s' j' Hg Hs Hcoh HP. subst n.
+  destruct j as [| | | |l|m]; try (intros H; inversion H; subst; split; [exact Hs|exact I]).
+  cbn [walk okv]. destruct (G_plain _ _ Hg) as [Hid Hne].
+  destruct (match assoc "$ref" m with Some (JStr r) => String.eqb r "" | _ => false end) eqn:Eemp.
+  { exfalso. destruct (assoc "$ref" m) as [[| | |r| |]|]; try discriminate. apply String.eqb_eq in Eemp. subst r. apply Hne. reflexivity. }
+  unfold apply_id. rewrite Hid. cbn [String.eqb].
+  destruct (has_ref m) eqn:Hr.
+  - rewrite noskip. cbn [negb]. apply esr_cyc; assumption.
+  - intros H. apply ebind_done in H. destruct H as [[s1 m1] [Hf H]]. cbn [fst snd] in H. inversion H; subst.
+    destruct (fold_members_rel2 (fun x s0 => walk E docs cwd OP ctx_base live follow x s0 parents rroot base) Inv2
+                (fun x x' => match x with JObj _ => out_ok x' | _ => True end)
+                (fun x => jsize x < jsize (JObj m) /\ G base x /\ PInv parents (base, x))
+                (fun x s0 s0' x' Hd Hs0 Hw => IH (jsize x) (proj1 Hd) x eq_refl s0 parents rroot base s0' x' (proj1 (proj2 Hd)) Hs0 Hcoh (proj2 (proj2 Hd)) Hw)
+                m s [] s' m1) as [Hs' [m2 [Hm HR]]].
+    + intros k v x Hin Hc. split; [|split].
+      * eapply Nat.le_lt_trans; [apply child_of_size; apply schema_child_child_of with (k := k); exact Hc|eapply jsize_value; exact Hin].
+      * eapply G_child; [exact Hg|exact Hr|exact Hin|apply schema_child_child_of with (k := k); exact Hc].
+      * eapply PInv_child; eassumption.
+    + exact Hs.
+    + exact Hf.
+    + cbn [rev app] in Hm. subst m1. split; [exact Hs'|]. apply oo_node.
+      * rewrite (rel_members_has_ref _ _ _ HR). exact Hr.
+      * intros k v x mm Hin Hc Ex. exact (rel_members_out out_ok out_ok_obj _ _ _ _ _ _ HR Hin Hc Ex).
+Qed.
+End WalkCyc.
+
+Theorem exp_cyc : forall d s parents rroot base j s' j',
+  G base j -> Inv2 s -> Coh cwd rroot base -> PInv parents (base, j) ->
+  exp E docs cwd OP ctx_base live d s parents rroot base j = Done (s', j') ->
+  Inv2 s' /\ okv j j'.
+Proof.
+  induction d as [|d IH]; intros s parents rroot base j s' j' Hg Hs Hcoh HP; cbn [exp]; [discriminate|].
+  apply walk_cyc; assumption.
+Qed.
+
+(* ---------- acyclic graphs end reference-free ---------- *)
+Inductive ref_free : json -> Prop :=
+| rf_node m : has_ref m = false -> (forall k v x mm, In (k, v) m -> schema_child k v x -> x = JObj mm -> ref_free x) -> ref_free (JObj m).
+
+Theorem acyclic_ref_free : (forall nref, ~ on_cycle nref) -> bad0 = [] -> forall j, out_ok j -> ref_free j.
+Proof.
+  intros Hac Hb j H. induction H as [m nref Hr _ Hc|m Hr _ IH].
+  - exfalso. destruct Hc as [Hc|Hc]; [exact (Hac nref Hc)|rewrite Hb in Hc; exact Hc].
+  - apply rf_node; [exact Hr|exact IH].
+Qed.
+
+(* ---------- a sufficient condition for acyclicity: a rank that every edge of the graph decreases ---------- *)
+Section Ranked.
+Variable rk : string * json -> nat.
+Hypothesis Hrk : forall b j q, G b j -> step (b, j) q -> rk q < rk (b, j).
+(* the target is a function of the canonical reference (two holders of one reference designate the same thing) *)
+Hypothesis G_canon : forall b1 m1 b2 m2 nref, G b1 (JObj m1) -> G b2 (JObj m2) -> has_ref m1 = true -> has_ref m2 = true ->
+  nuri (get_str "$ref" m1) b1 = POk nref -> nuri (get_str "$ref" m2) b2 = POk nref ->
+  sem_target E docs cwd (get_str "$ref" m2) b2 = sem_target E docs cwd (get_str "$ref" m1) b1.
+
+Lemma step_G b j q : G b j -> step (b, j) q -> G (fst q) (snd q).
+Proof.
+  intros Hg H. inversion H; subst; cbn [fst snd].
+  - eapply G_child; [exact Hg|eassumption|eassumption|eapply schema_child_child_of; eassumption].
+  - destruct q as [b' t]. eapply G_target; eassumption.
+Qed.
+Lemma reach_rank p q : G (fst p) (snd p) -> reach p q -> G (fst q) (snd q) /\ rk q <= rk p.
+Proof.
+  intros Hg H. induction H as [p|p q r H IH Hs]; [split; [exact Hg|lia]|].
+  destruct (IH Hg) as [Hgq Hle]. destruct q as [bq jq]. cbn [fst snd] in Hgq.
+  split; [eapply step_G; eassumption|]. pose proof (Hrk _ _ _ Hgq Hs). lia.
+Qed.
+
+Theorem ranked_acyclic : forall nref, ~ on_cycle nref.
+Proof.
+  intros nref [b [j [bt [b' [j' [[Hg [m [-> [Hr Hn]]]] [[m0 [Em0 [_ Ht]]] [Hre [Hg' [m' [-> [Hr' Hn']]]]]]]]]]]].
+  assert (Em : m0 = m) by (inversion Em0; reflexivity). subst m0.
+  assert (Hgt : G (fst bt) (snd bt)).
+  { destruct bt as [b1 t1]. cbn [fst snd]. exact (G_target _ _ _ _ Hg Hr Ht). }
+  destruct (reach_rank _ _ Hgt Hre) as [_ Hle].
+  pose proof (G_canon _ _ _ _ _ Hg Hg' Hr Hr' Hn Hn') as Hsame. rewrite Ht in Hsame.
+  pose proof (Hrk _ _ _ Hg' (st_ref _ _ _ Hr' Hsame)) as Hlt. lia.
+Qed.
+End Ranked.
+End Cyc.
+
+(* ---------- the hypotheses decided on a finite list of nodes (G := GN nodes of ExpandSimCheck.v) ---------- *)
+Definition schema_kids (k : string) (v : json) : list json :=
+  if mem_str k ["definitions"; "properties"; "patternProperties"; "dependencies"] then match v with JObj vm => map snd vm | _ => [] end
+  else if mem_str k ["allOf"; "anyOf"; "oneOf"] then match v with JArr l => l | _ => [] end
+  else if String.eqb k "items" then match v with JArr l => l | JObj _ => [v] | _ => [] end
+  else if mem_str k ["not"; "additionalProperties"; "additionalItems"] then match v with JObj _ => [v] | _ => [] end
+  else [].
+Lemma schema_child_kids k v x : schema_child k v x -> In x (schema_kids k v).
+Proof.
+  intros H. unfold schema_kids. inversion H as [vm k' x0 E1 Hin|l x0 E1 E2 Hin|l x0 E1 E2 E3 Hin|vm E1 E2 E3|vm E1 E2 E3 E4]; subst.
+  - rewrite E1. apply in_map_iff. exists (k', x). split; [reflexivity|exact Hin].
+  - rewrite E1, E2. exact Hin.
+  - rewrite E1, E2, E3. exact Hin.
+  - rewrite E1, E2, E3. left. reflexivity.
+  - rewrite E1, E2, E3, E4. left. reflexivity.
+Qed.
+
+Section CycCheck.
+Variable E : env.
+Variable docs : list (string * json).
+Variable cwd : string.
+Variable OP : opts.
+Variable ctx_base : string.
+Variable rid : string.
+Variable nodes : list (string * json).
+
+Definition succs (p : string * json) : list (string * json) :=
+  match snd p with
+  | JObj m => if has_ref m then match sem_target E docs cwd (get_str "$ref" m) (fst p) with Some bt => [bt] | None => [] end
+              else flat_map (fun kv => map (fun x => (fst p, x)) (schema_kids (fst kv) (snd kv))) m
+  | _ => []
+  end.
+Lemma step_succs p q : step E docs cwd p q -> In q (succs p).
+Proof.
+  intros H. inversion H as [b m k v x Hr Hin Hc|b m bt Hr Ht]; subst; unfold succs; cbn [fst snd]; rewrite Hr.
+  - apply in_flat_map. exists (k, v). split; [exact Hin|]. cbn [fst snd]. apply in_map. apply schema_child_kids. exact Hc.
+  - rewrite Ht. left. reflexivity.
+Qed.
+
+Fixpoint rk_in (l : list (string * json)) (p : string * json) : nat :=
+  match l with
+  | [] => 0
+  | x :: r => if String.eqb (fst x) (fst p) && json_seqb (snd x) (snd p) then S (List.length r) else rk_in r p
+  end.
+Definition rank_check : bool := forallb (fun p => forallb (fun q => Nat.ltb (rk_in nodes q) (rk_in nodes p)) (succs p)) nodes.
+
+Definition pair_ok (p1 p2 : string * json) : bool :=
+  match snd p1, snd p2 with
+  | JObj m1, JObj m2 =>
+      if has_ref m1 && has_ref m2 then
+        match nuri (get_str "$ref" m1) (fst p1), nuri (get_str "$ref" m2) (fst p2) with
+        | POk n1, POk n2 =>
+            if String.eqb n1 n2 then
+              match new_ref (s2l (get_str "$ref" m1)), new_ref (s2l (get_str "$ref" m2)) with
+              | POk r1, POk r2 => Bool.eqb (String.eqb (get_str "$ref" m2) "") (String.eqb (get_str "$ref" m1) "")
+                                  && strs_eqb (ptr_tokens (u_frag (r_url r2))) (ptr_tokens (u_frag (r_url r1)))
+              | _, _ => false
+              end
+            else true
+        | _, _ => true
+        end
+      else true
+  | _, _ => true
+  end.
+Definition canon_check : bool := forallb (fun p1 => forallb (pair_ok p1) nodes) nodes.
+
+Lemma GN_rank : rank_check = true -> forall b j q, GN nodes b j -> step E docs cwd (b, j) q -> rk_in nodes q < rk_in nodes (b, j).
+Proof.
+  intros Hc b j q Hg Hs. assert (Hin : In (b, j) nodes) by (inversion Hs; subst; exact Hg).
+  unfold rank_check in Hc. rewrite forallb_forall in Hc. specialize (Hc _ Hin). rewrite forallb_forall in Hc.
+  specialize (Hc _ (step_succs _ _ Hs)). apply Nat.ltb_lt. exact Hc.
+Qed.
+
+Lemma GN_canon : canon_check = true -> forall b1 m1 b2 m2 nref, GN nodes b1 (JObj m1) -> GN nodes b2 (JObj m2) ->
+  has_ref m1 = true -> has_ref m2 = true -> nuri (get_str "$ref" m1) b1 = POk nref -> nuri (get_str "$ref" m2) b2 = POk nref ->
+  sem_target E docs cwd (get_str "$ref" m2) b2 = sem_target E docs cwd (get_str "$ref" m1) b1.
+Proof.
+  intros Hc b1 m1 b2 m2 nref Hg1 Hg2 Hr1 Hr2 Hn1 Hn2. unfold canon_check in Hc. rewrite forallb_forall in Hc.
+  specialize (Hc _ Hg1). rewrite forallb_forall in Hc. specialize (Hc _ Hg2). unfold pair_ok in Hc. cbn [fst snd] in Hc.
+  rewrite Hr1, Hr2, Hn1, Hn2, String.eqb_refl in Hc. cbn [andb] in Hc.
+  destruct (new_ref (s2l (get_str "$ref" m1))) as [r1| |] eqn:E1; try discriminate.
+  destruct (new_ref (s2l (get_str "$ref" m2))) as [r2| |] eqn:E2; try discriminate.
+  apply andb_true_iff in Hc. destruct Hc as [H1 H2]. apply Bool.eqb_prop in H1. apply strs_eqb_eq in H2.
+  eapply sem_target_eq; [exact E1|exact E2|rewrite Hn1, Hn2; reflexivity|exact H1|exact H2].
+Qed.
+
+(* everything a full, strict expansion leaves behind is the rendering of a reference on a cycle of the checked graph *)
+Theorem checked_graph_cyc (live : option (string * json)) (bad0 : list string) :
+  check_nodes E docs cwd OP ctx_base rid nodes = true ->
+  (forall lu ld, live = Some (lu, ld) -> doc_at docs cwd lu = Some ld) ->
+  o_cont OP = false -> o_skip OP = false ->
+  forall d s parents rroot base j s' j',
+    GN nodes base j -> Inv2 E docs cwd rid (GN nodes) bad0 s -> Coh cwd rroot base -> PInv E docs cwd (GN nodes) bad0 parents (base, j) ->
+    exp E docs cwd OP ctx_base live d s parents rroot base j = Done (s', j') ->
+    Inv2 E docs cwd rid (GN nodes) bad0 s' /\ okv E docs cwd OP ctx_base rid (GN nodes) bad0 j j'.
+Proof.
+  intros Hck Hlive Hstrict Hfull.
+  apply (exp_cyc E docs cwd OP ctx_base live rid Hlive (GN nodes)
+           (GN_child E docs cwd OP ctx_base rid nodes Hck) (GN_target E docs cwd OP ctx_base rid nodes Hck)
+           (GN_plain E docs cwd OP ctx_base rid nodes Hck) (GN_same E docs cwd OP ctx_base rid nodes Hck)
+           (GN_target_obj E docs cwd OP ctx_base rid nodes Hck) Hstrict Hfull bad0).
+Qed.
+
+Theorem checked_graph_acyclic :
+  check_nodes E docs cwd OP ctx_base rid nodes = true -> rank_check = true -> canon_check = true ->
+  forall nref, ~ on_cycle E docs cwd (GN nodes) nref.
+Proof.
+  intros Hck Hrank Hcanon.
+  exact (ranked_acyclic E docs cwd (GN nodes) (GN_child E docs cwd OP ctx_base rid nodes Hck) (GN_target E docs cwd OP ctx_base rid nodes Hck)
+           (rk_in nodes) (GN_rank Hrank) (GN_canon Hcanon)).
+Qed.
+End CycCheck.
+
+(* a plain computation that orders the nodes of an acyclic graph so that every edge points forward (judged by rank_check) *)
+Fixpoint topo (E : env) (docs : list (string * json)) (cwd : string) (fuel : nat) (rest placed : list (string * json)) : list (string * json) :=
+  match fuel with
+  | 0 => (rest ++ placed)%list
+  | S f =>
+      let isin (q : string * json) (l : list (string * json)) := existsb (fun p => String.eqb (fst p) (fst q) && json_seqb (snd p) (snd q)) l in
+      let ready (p : string * json) := forallb (fun q => match snd q with JObj _ => isin q placed | _ => true end) (succs E docs cwd p) in
+      match partition ready rest with
+      | ([], _) => (rest ++ placed)%list
+      | (r, nr) => topo E docs cwd f nr (r ++ placed)%list
+      end
+  end.
